@@ -19,8 +19,8 @@ RULE = ('cases: every grid-world shape with extents 0..N per axis (DiscreteWorld
         'is the coordinate; get_cell(x,y,z) is that very row (row label = id, pos and the distinguishing cell-component values equal '
         'to the coordinate\'s); outside coordinates raise IndexError. Non-trivial shape: >=2 cells; distinct by (world class, extents).')
 ASSUMPTIONS = ['exhaustive only for extents <= N', 'cell ids are obtained with discrete_grid_pos_to_id(x, y, width, z, height) as documented']
-FLOORS = {'quick': {'shapes': 100, 'cells_checked': 1000, 'outside_probes': 3000, 'shapes_with_zero_axis': 50, 'line_worlds': 4,
-                    'grid_worlds': 16, 'reach:Environments.DiscreteWorld.get_cell': 3000, 'reach:Environments.discrete_grid_pos_to_id': 2000},
+FLOORS = {'quick': {'shapes': 72, 'cells_checked': 720, 'outside_probes': 2000, 'shapes_with_zero_axis': 30, 'line_worlds': 2,
+                    'grid_worlds': 8, 'reach:Environments.DiscreteWorld.get_cell': 2700, 'reach:Environments.discrete_grid_pos_to_id': 1400},
           'thorough': {'shapes': 500, 'cells_checked': 20000}}
 EXHAUSTIVE = {'quick': 'all grid shapes with extents 0..4 (125 DiscreteWorld, 4 LineWorld, 16 GridWorld), all in-range and just-outside coordinates',
               'thorough': 'all grid shapes with extents 0..7 (512 DiscreteWorld, 7 LineWorld, 49 GridWorld), all in-range and just-outside coordinates'}
